@@ -64,11 +64,29 @@ def judge(graph, ex, case, ctx):
             yield Violation({"oracle": "parse-not-deterministic"}, f"two parses of the same input differ: {detail}", case)
 
 
+def generated_judge(graph, ex, case):
+    if not case["lazy"]:
+        yield from ginspect.check_worker_copies(ex, case, ginspect.excluded_by_restrictions(ex))
+    yield from ginspect.check_bridging(graph, case)
+
+
 def run(ctx):
     ginspect.run_graph_property(ctx, "C09", judge, quick=320, thorough=6400)
+    # generated suites (G2): equivalent copies and complete bridging; lazy runs are compared with the known DAG
+    from props import c07
+
+    c07.run_generated_suites(ctx, also=generated_judge, compare=True, quick=48, thorough=1600)
 
 
 def replay(ctx, case):
+    if isinstance(case, dict) and case.get("part") == "generated-suite":
+        from props import c07
+
+        try:
+            c07.check_generated(case, ctx.scratch, also=generated_judge, compare=True)
+        except Violation as violation:
+            return [violation]
+        return []
     ginspect.simmod.setup()
     graph, error = ginspect.obtain_graph(case, ctx.scratch)
     if error is not None:
